@@ -227,34 +227,82 @@ func c17Check(roots []ast.Node, many bool, pruneList []int, k int, add func(sig,
 			}
 		}
 	}
-	// Preorder: full, and early exit after k
+	// Preorder: one sequence value ranged three times - in full, with an early exit after k, and in full again
+	// (an iter.Seq may be ranged any number of times; state kept from an earlier, abandoned iteration must not leak).
 	full, _ := expectedWalk(roots, many, nil)
-	var pre []ast.Node
-	calls := 0
+	var seq func(yield func(ast.Node) bool)
 	if p := callGuard(func() {
-		seq := ast.Preorder(roots[0])
 		if many {
 			seq = ast.PreorderMany(roots)
+		} else {
+			seq = ast.Preorder(roots[0])
 		}
-		seq(func(n ast.Node) bool {
-			calls++
-			pre = append(pre, n)
-			return k <= 0 || len(pre) < k
-		})
 	}); p != nil {
 		add("C17 panic Preorder "+panicKind(p), fmt.Sprint(p))
 		return
 	}
-	wantN := len(full)
-	if k > 0 && k < wantN {
-		wantN = k
+	run := func(k int) (pre []ast.Node, calls int, pn any) {
+		pn = callGuard(func() {
+			seq(func(n ast.Node) bool {
+				calls++
+				pre = append(pre, n)
+				return k <= 0 || len(pre) < k
+			})
+		})
+		return
 	}
-	if len(pre) != wantN || calls != wantN {
-		add("C17 Preorder early-exit", fmt.Sprintf("consumer stops after %d items: yield was called %d times, expected %d (tree has %d nodes)", k, calls, wantN, len(full)))
-	} else {
+	for round, kk := range []int{0, k, 0} {
+		pre, calls, pn := run(kk)
+		if pn != nil {
+			add("C17 panic Preorder "+panicKind(pn), fmt.Sprint(pn))
+			return
+		}
+		wantN := len(full)
+		if kk > 0 && kk < wantN {
+			wantN = kk
+		}
+		what := [...]string{"first full range", "early-exit", "re-iteration after an early stop"}[round]
+		if len(pre) != wantN || calls != wantN {
+			sig := "C17 Preorder early-exit"
+			if round == 2 {
+				sig = "C17 Preorder re-iteration"
+			} else if round == 0 {
+				sig = "C17 Preorder visit-count"
+			}
+			add(sig, fmt.Sprintf("%s (consumer stops after %d items): yield was called %d times, expected %d (tree has %d nodes)", what, kk, calls, wantN, len(full)))
+			break
+		}
+		bad := false
 		for i := range pre {
 			if !sameNode(pre[i], full[i].node) {
-				add("C17 Preorder order", fmt.Sprintf("Preorder item #%d is %s, expected %s", i, astx.TypeName(pre[i]), typeAt(full, i)))
+				add("C17 Preorder order", fmt.Sprintf("%s: Preorder item #%d is %s, expected %s", what, i, astx.TypeName(pre[i]), typeAt(full, i)))
+				bad = true
+				break
+			}
+		}
+		if bad {
+			break
+		}
+	}
+	// and an unpruned Inspect after the pruned traversals (no state may survive a traversal)
+	var again []ast.Node
+	g := func(n ast.Node) bool { again = append(again, n); return true }
+	if p := callGuard(func() {
+		if many {
+			ast.InspectMany(roots, g)
+		} else {
+			ast.Inspect(roots[0], g)
+		}
+	}); p != nil {
+		add("C17 panic Inspect "+panicKind(p), fmt.Sprint(p))
+		return
+	}
+	if len(again) != len(full) {
+		add("C17 Inspect visit-count", fmt.Sprintf("a second, unpruned Inspect visited %d nodes, expected %d", len(again), len(full)))
+	} else {
+		for i := range again {
+			if !sameNode(again[i], full[i].node) {
+				add("C17 Inspect order", fmt.Sprintf("second Inspect visit #%d is %s, expected %s", i, astx.TypeName(again[i]), typeAt(full, i)))
 				break
 			}
 		}
@@ -329,6 +377,9 @@ func oracleC17(ctx *harness.Ctx, cs *harness.Case) (ds []harness.Discrepancy) {
 	if cs.Entry == "synthetic" {
 		seed, _ := strconv.ParseUint(cs.Aux["seed"], 10, 64)
 		n := synthBuilder.Build(cs.Input, seed, 3)
+		if long, _ := strconv.Atoi(cs.Aux["long"]); long > 0 {
+			n = synthBuilder.BuildLong(cs.Input, seed, 2, long)
+		}
 		if n == nil {
 			return
 		}
@@ -405,6 +456,46 @@ func runC17(ctx *harness.Ctx) {
 		if astx.HasBad(o.Nodes[0]) {
 			ctx.Class("tree-with-bad-node")
 		}
+		ctx.Check(t, cs, oracleC17(ctx, cs))
+	})
+	// one very long list per tree (list lengths around 128 / 256 / 512 / 1024), long statement lists for the *Many variants,
+	// long operator chains next to a short list (deep pending-sibling stacks)
+	ctx.Rapid("long-lists", ctx.Pick(150, 3000), func(t *rapid.T) {
+		var src, en, form string
+		if rapid.IntRange(0, 4).Draw(t, "from-G") == 0 {
+			c := drawGenLong(t, "", 2)
+			es := entriesForKind(c.S.Kind)
+			src, en, form = c.Text, es[rapid.IntRange(0, len(es)-1).Draw(t, "entry")].Name, "G-long"
+		} else {
+			src, en, form = drawLongListSource(t)
+		}
+		e := entryByName[en]
+		o := e.Guarded(src)
+		if o.Panicked || len(o.Nodes) == 0 || isNilNode(o.Nodes[0]) {
+			return
+		}
+		total := len(astx.All(o.Nodes[0]))
+		prune, k := c17Draw(t, total)
+		cs := &harness.Case{Leg: "long-lists", Entry: e.Name, Input: src, Aux: map[string]string{"prune": prune, "k": strconv.Itoa(k)}}
+		record(cs, total, src)
+		ctx.Class("long-lists:" + form)
+		ctx.Check(t, cs, oracleC17(ctx, cs))
+	})
+	// synthetic instances whose root slices hold 100-1100 elements (every node type that has a slice field)
+	ctx.Rapid("synthetic-long", ctx.Pick(150, 3000), func(t *rapid.T) {
+		ti := rapid.IntRange(0, len(registry.All)-1).Draw(t, "type")
+		name := astx.TypeName(registry.All[ti])
+		seed := rapid.Uint64().Draw(t, "seed")
+		long := rapid.SampledFrom(longListCounts).Draw(t, "long")
+		n := synthBuilder.BuildLong(name, seed, 2, long)
+		total := len(astx.All(n))
+		if total < long {
+			return // the type has no node slice
+		}
+		prune, k := c17Draw(t, total)
+		cs := &harness.Case{Leg: "synthetic-long", Entry: "synthetic", Input: name, Aux: map[string]string{"seed": strconv.FormatUint(seed, 10), "long": strconv.Itoa(long), "prune": prune, "k": strconv.Itoa(k)}}
+		record(cs, total, name+cs.Aux["seed"]+cs.Aux["long"])
+		ctx.Class("synthetic-long")
 		ctx.Check(t, cs, oracleC17(ctx, cs))
 	})
 	per := ctx.Pick(60, 1200)
@@ -608,11 +699,15 @@ func oracleC19(ctx *harness.Ctx, cs *harness.Case) (ds []harness.Discrepancy) {
 	case "synthetic":
 		seed, _ := strconv.ParseUint(cs.Aux["seed"], 10, 64)
 		n := synthBuilder.Build(cs.Input, seed, 2)
+		if long, _ := strconv.Atoi(cs.Aux["long"]); long > 0 {
+			n = synthBuilder.BuildLong(cs.Input, seed, 2, long)
+		}
 		if n == nil {
 			return
 		}
 		c19Node(n, false, add, nt)
 		c19WalkFields(n, add)
+		c19WalkOrder([]ast.Node{n}, false, add)
 	default:
 		e := entryByName[cs.Entry]
 		if e == nil {
@@ -622,16 +717,29 @@ func oracleC19(ctx *harness.Ctx, cs *harness.Case) (ds []harness.Discrepancy) {
 		if o.Panicked {
 			return
 		}
+		var roots []ast.Node
 		for _, root := range o.Nodes {
 			if isNilNode(root) {
 				continue
 			}
+			roots = append(roots, root)
 			for _, a := range astx.All(root) {
 				c19Node(a.Node, true, add, nt)
 			}
 		}
+		if len(roots) > 0 {
+			c19WalkOrder(roots, e.List, add)
+		}
 	}
 	return
+}
+
+// c19WalkOrder: the traversal of a whole tree enumerates fields and list elements in declaration order (C17's reflection model, unpruned).
+func c19WalkOrder(roots []ast.Node, many bool, add func(sig, msg string)) {
+	if !many {
+		roots = roots[:1]
+	}
+	c17Check(roots, many, nil, 0, func(sig, msg string) { add("C19 walk-order: "+strings.TrimPrefix(sig, "C17 "), msg) })
 }
 
 // c19WalkFields checks, for one instance, that Walk enumerates exactly its node-typed fields in declaration order.
@@ -718,6 +826,33 @@ func runC19(ctx *harness.Ctx) {
 			}
 		}
 		ctx.Exhaustive(fmt.Sprintf("every node struct of ast/ast.go (%d types) instantiated synthetically with random position fields / optional children", len(registry.All)), ctx.ViolationCount() == 0)
+	})
+	// one very long list per tree: `X[$]`, `X[0]` and the walk over lists of 128 / 256 / 512 / 1024 elements
+	ctx.Rapid("long-lists", ctx.Pick(100, 2000), func(t *rapid.T) {
+		var src, en, form string
+		if rapid.IntRange(0, 4).Draw(t, "from-G") == 0 {
+			c := drawGenLong(t, "", 2)
+			es := entriesForKind(c.S.Kind)
+			src, en, form = c.Text, es[rapid.IntRange(0, len(es)-1).Draw(t, "entry")].Name, "G-long"
+		} else {
+			src, en, form = drawLongListSource(t)
+		}
+		cs := &harness.Case{Leg: "long-lists", Entry: en, Input: src}
+		ctx.Eval(1)
+		ctx.Class("long-lists:" + form)
+		ctx.NonTrivial(harness.Hash("long", src))
+		ctx.Check(t, cs, oracleC19(ctx, cs))
+	})
+	ctx.Rapid("synthetic-long", ctx.Pick(150, 3000), func(t *rapid.T) {
+		ti := rapid.IntRange(0, len(registry.All)-1).Draw(t, "type")
+		name := astx.TypeName(registry.All[ti])
+		seed := rapid.Uint64().Draw(t, "seed")
+		long := rapid.SampledFrom(longListCounts).Draw(t, "long")
+		cs := &harness.Case{Leg: "synthetic-long", Entry: "synthetic", Input: name, Aux: map[string]string{"seed": strconv.FormatUint(seed, 10), "long": strconv.Itoa(long)}}
+		ctx.Eval(1)
+		ctx.Class("synthetic-long")
+		ctx.NonTrivial(harness.Hash("synthetic-long", name, cs.Aux["seed"], cs.Aux["long"]))
+		ctx.Check(t, cs, oracleC19(ctx, cs))
 	})
 	ctx.Rapid("parsed", ctx.Pick(5000, 80000), func(t *rapid.T) {
 		s := drawValid(t)
